@@ -21,12 +21,24 @@
 (* the log (Replay) - the property says they come out unchanged.           *)
 (*                                                                         *)
 (* The replica holds the first rlen entries of the log (it writes them to  *)
-(* its own file) and its own maps rmap/rseq.  RApply streams the next      *)
-(* entry; RStop closes the replica, RResume reopens it: it replays its own *)
-(* rlen entries and asks the primary for the log from entry boundary rlen  *)
-(* (the harness checks the byte offset requested); RCut breaks the stream  *)
-(* in the middle of the next entry, after which the replica reconnects at  *)
-(* boundary rlen again.                                                    *)
+(* its own file) and its own maps rmap/rseq.  Its stream from the primary   *)
+(* has delivered soff entries.  RApply streams and applies the next entry;  *)
+(* the same in two steps, as in the code: RRecv - replicate() has read the  *)
+(* entry off the stream and hands it to a goroutine that has not yet taken  *)
+(* the replica's lock (infl = the entry in flight; hook                     *)
+(* verifTranslateReplGate), RApplyInfl - that goroutine appends it.         *)
+(* RStop closes the replica, RResume reopens it: it replays its own rlen    *)
+(* entries and asks the primary for the log from entry boundary rlen (the   *)
+(* harness checks the byte offset requested); RCut breaks the stream in the *)
+(* middle of the next entry, after which the replica reconnects at boundary *)
+(* rlen again; RReassign gives the replica a (new) primary while it runs    *)
+(* (SetPrimaryStore, on every change of cluster membership): the old stream *)
+(* is dropped and a new one starts at boundary rlen.  An entry in flight at *)
+(* that moment belongs to the dropped stream and the new stream delivers it *)
+(* again: DropInFlight = TRUE discards it (the repaired code), FALSE        *)
+(* appends it nevertheless (the code as found) - the entry then arrives     *)
+(* twice (rdup), the replica's log is no longer a prefix of the primary's   *)
+(* and every later offset is wrong.                                         *)
 (*                                                                         *)
 (* ids: the property demands a stable bijection, not these particular ids; *)
 (* the harness compares ids up to a bijection that it builds as ids appear.*)
@@ -42,14 +54,17 @@ CONSTANTS
     Ops,       \* enabled actions
     Depth,     \* length of generated behaviours; 0 = (M) mode
     Recheck,   \* TRUE: the write phase looks unknown keys up again (the code); FALSE: it does not
+    DropInFlight, \* TRUE: an entry in flight when the primary is re-assigned is discarded
     MaxSeq,    \* bound on ids (only reached when Recheck = FALSE)
     MaxRestart,\* bound on restarts + replica stops (M mode)
     Sample     \* TRUE (simulation only): draw action parameters at random
 
-VARIABLES kmap, seq, log, pend, rlen, ron, rmap, rseq, given, budget, hist
+VARIABLES kmap, seq, log, pend, rlen, ron, rmap, rseq, soff, infl, rdup, given, budget, hist
 
-vars  == <<kmap, seq, log, pend, rlen, ron, rmap, rseq, given, budget, hist>>
-mview == <<kmap, seq, log, pend, rlen, ron, rmap, rseq, given, budget>>
+vars  == <<kmap, seq, log, pend, rlen, ron, rmap, rseq, soff, infl, rdup, given, budget, hist>>
+mview == <<kmap, seq, log, pend, rlen, ron, rmap, rseq, soff, infl, rdup, given, budget>>
+prim  == <<kmap, seq, log, pend, given>>     \* the primary's side
+strm  == <<soff, infl, rdup>>                \* the replica's stream
 
 Gen  == Depth > 0
 Batches ==
@@ -92,10 +107,12 @@ Init ==
     /\ kmap = EmptyMap /\ seq = ZeroSeq /\ log = << >>
     /\ pend = [c \in Callers |-> Idle]
     /\ rlen = 0 /\ ron = TRUE /\ rmap = EmptyMap /\ rseq = ZeroSeq
+    /\ soff = 0 /\ infl = 0 /\ rdup = 0
     /\ given = {} /\ budget = MaxRestart
     /\ hist = << >>
 
-Post == [kmap |-> kmap', seq |-> seq', loglen |-> Len(log'), rlen |-> rlen', ron |-> ron', rmap |-> rmap']
+Post == [kmap |-> kmap', seq |-> seq', loglen |-> Len(log'), rlen |-> rlen', ron |-> ron', rmap |-> rmap',
+         infl |-> infl']
 Log(rec) == hist' = IF Gen THEN Append(hist, rec @@ [post |-> Post]) ELSE hist
 
 Lookup(n, b) == [i \in 1..Len(b) |-> kmap[n][b[i]]]
@@ -108,7 +125,7 @@ TRead(c, n, b) ==
            done == \A i \in 1..Len(b) : ret[i] # 0
        IN  /\ pend'  = IF done THEN pend ELSE [pend EXCEPT ![c] = [ns |-> n, batch |-> b, ret |-> ret]]
            /\ given' = IF done THEN given \cup Given(n, b, ret) ELSE given
-           /\ UNCHANGED <<kmap, seq, log, rlen, ron, rmap, rseq, budget>>
+           /\ UNCHANGED <<kmap, seq, log, rlen, ron, rmap, rseq, strm, budget>>
            /\ Log([op |-> "TRead", c |-> c, ns |-> n, batch |-> b, done |-> done, res |-> ret])
 
 \* what the write phase computes from a pending call p
@@ -140,7 +157,7 @@ TWrite(c) ==
               ELSE /\ log'  = Append(log, w.entry)
                    /\ kmap' = ApplyMap(kmap, w.entry)
                    /\ seq'  = ApplySeq(seq, w.entry)
-           /\ UNCHANGED <<rlen, ron, rmap, rseq, budget>>
+           /\ UNCHANGED <<rlen, ron, rmap, rseq, strm, budget>>
            /\ Log([op |-> "TWrite", c |-> c, ns |-> p.ns, batch |-> p.batch, res |-> w.ids,
                    new |-> w.newk, wrote |-> w.newk # {}])
 
@@ -155,32 +172,65 @@ Translate(n, b) ==
               ELSE /\ log'  = Append(log, w.entry)
                    /\ kmap' = ApplyMap(kmap, w.entry)
                    /\ seq'  = ApplySeq(seq, w.entry)
-           /\ UNCHANGED <<pend, rlen, ron, rmap, rseq, budget>>
+           /\ UNCHANGED <<pend, rlen, ron, rmap, rseq, strm, budget>>
            /\ Log([op |-> "Translate", c |-> 0, ns |-> n, batch |-> b, res |-> w.ids,
                    new |-> w.newk, wrote |-> w.newk # {}])
 
 \* ---- restart of the primary: the maps are rebuilt from the log -------------------
 Restart ==
     /\ \A c \in Callers : pend[c] = Idle
+    /\ infl = 0
     /\ budget > 0 /\ budget' = budget - 1
     /\ kmap' = ReplayMap(log)
     /\ seq'  = ReplaySeq(log)
-    /\ UNCHANGED <<log, pend, rlen, ron, rmap, rseq, given>>
+    /\ soff' = IF ron THEN rlen ELSE soff      \* the replica's stream breaks and restarts at rlen
+    /\ UNCHANGED <<log, pend, rlen, ron, rmap, rseq, infl, rdup, given>>
     /\ Log([op |-> "Restart"])
 
 \* ---- the replica ------------------------------------------------------------------
+\* entry e of the primary's log reaches the replica's file: in place (e = rlen+1) it
+\* extends the prefix; an entry the replica already holds is a duplicate
+Arrive(e) ==
+    IF e = rlen + 1
+    THEN /\ rlen' = rlen + 1
+         /\ rmap' = ApplyMap(rmap, log[e])
+         /\ rseq' = ApplySeq(rseq, log[e])
+         /\ UNCHANGED rdup
+    ELSE /\ rdup' = rdup + 1
+         /\ UNCHANGED <<rlen, rmap, rseq>>
+
 RApply ==
-    /\ ron /\ rlen < Len(log)
-    /\ rlen' = rlen + 1
-    /\ rmap' = ApplyMap(rmap, log[rlen + 1])
-    /\ rseq' = ApplySeq(rseq, log[rlen + 1])
-    /\ UNCHANGED <<kmap, seq, log, pend, ron, given, budget>>
+    /\ ron /\ infl = 0 /\ soff < Len(log)
+    /\ soff' = soff + 1
+    /\ Arrive(soff + 1)
+    /\ UNCHANGED <<prim, ron, infl, budget>>
     /\ Log([op |-> "RApply"])
 
-RStop ==
-    /\ ron /\ ron' = FALSE
+RRecv ==
+    /\ ron /\ infl = 0 /\ soff < Len(log)
+    /\ soff' = soff + 1 /\ infl' = soff + 1
+    /\ UNCHANGED <<prim, rlen, ron, rmap, rseq, rdup, budget>>
+    /\ Log([op |-> "RRecv"])
+
+RApplyInfl ==
+    /\ ron /\ infl # 0
+    /\ infl' = 0
+    /\ Arrive(infl)
+    /\ UNCHANGED <<prim, ron, soff, budget>>
+    /\ Log([op |-> "RApplyInfl"])
+
+RReassign ==
+    /\ ron
     /\ budget > 0 /\ budget' = budget - 1
-    /\ UNCHANGED <<kmap, seq, log, pend, rlen, rmap, rseq, given>>
+    /\ soff' = rlen
+    /\ infl' = IF DropInFlight THEN 0 ELSE infl
+    /\ UNCHANGED <<prim, rlen, ron, rmap, rseq, rdup>>
+    /\ Log([op |-> "RReassign", off |-> rlen, dropped |-> infl])
+
+RStop ==
+    /\ ron /\ ron' = FALSE /\ infl = 0
+    /\ budget > 0 /\ budget' = budget - 1
+    /\ UNCHANGED <<prim, rlen, rmap, rseq, strm>>
     /\ Log([op |-> "RStop"])
 
 \* reopen: replay the replica's own log (= the first rlen entries) and resume at rlen
@@ -188,20 +238,22 @@ RResume ==
     /\ ~ron /\ ron' = TRUE
     /\ rmap' = ReplayMap(SubSeq(log, 1, rlen))
     /\ rseq' = ReplaySeq(SubSeq(log, 1, rlen))
-    /\ UNCHANGED <<kmap, seq, log, pend, rlen, given, budget>>
+    /\ soff' = rlen
+    /\ UNCHANGED <<prim, rlen, infl, rdup, budget>>
     /\ Log([op |-> "RResume", off |-> rlen])
 
 \* the stream breaks inside entry rlen+1; the replica reconnects at boundary rlen
 RCut ==
-    /\ ron /\ rlen < Len(log)
+    /\ ron /\ infl = 0 /\ soff = rlen /\ rlen < Len(log)
     /\ budget > 0 /\ budget' = budget - 1
-    /\ UNCHANGED <<kmap, seq, log, pend, rlen, ron, rmap, rseq, given>>
+    /\ UNCHANGED <<prim, rlen, ron, rmap, rseq, strm>>
     /\ Log([op |-> "RCut", off |-> rlen])
 
-\* ---- behaviours end with no caller in flight ----------------------------------------
+\* ---- behaviours end with no caller and no entry in flight ---------------------------
 LastOp == IF Len(hist) = 0 THEN "" ELSE hist[Len(hist)].op
 Final  == [op |-> "Final", kmap |-> kmap, seq |-> seq, loglen |-> Len(log), rlen |-> rlen, ron |-> ron]
 Finish == /\ Gen /\ Len(hist) >= Depth /\ \A c \in Callers : pend[c] = Idle
+          /\ infl = 0
           /\ LastOp # "Final"
           /\ hist' = Append(hist, Final) /\ UNCHANGED mview
 
@@ -212,19 +264,23 @@ Next ==
           \/ "Translate" \in Ops /\ \E n \in Pick(NS), b \in Pick(Batches) : Translate(n, b)
           \/ "Restart" \in Ops /\ Restart
           \/ "RApply" \in Ops /\ RApply
+          \/ "RRecv" \in Ops /\ RRecv
+          \/ "RReassign" \in Ops /\ RReassign
           \/ "RStop" \in Ops /\ RStop
           \/ "RResume" \in Ops /\ RResume
           \/ "RCut" \in Ops /\ RCut
-    \/ \* a pending caller may always finish (also past Depth: drain before Finish)
+    \/ \* a pending caller and an entry in flight may always finish (also past Depth:
+       \* drain before Finish)
        /\ LastOp # "Final"
-       /\ \E c \in Callers : TWrite(c)
+       /\ \/ \E c \in Callers : TWrite(c)
+          \/ RApplyInfl
 
 Spec == Init /\ [][Next]_vars
 
 \* ---- properties (M) -------------------------------------------------------------------
 TypeOK ==
     /\ \A n \in NS, k \in Keys : kmap[n][k] \in 0..MaxSeq
-    /\ rlen \in 0..Len(log)
+    /\ rlen \in 0..Len(log) /\ soff \in 0..Len(log) /\ infl \in 0..Len(log)
 \* every id ever returned for a key is positive, the only one for that key, and no
 \* other key of the namespace was ever given it
 StableBijection ==
@@ -240,12 +296,16 @@ MapAgrees ==
 ReverseOK == \A x \in given : RevOf(log, x[1], x[3]) = x[2]
 \* a restart would change nothing
 RestartStable == ReplayMap(log) = kmap /\ ReplaySeq(log) = seq
-\* the replica holds exactly the mapping of the log prefix it has, never contradicts the
-\* primary, and is identical once it has the whole log
+\* the replica's log is a prefix of the primary's (no entry arrives twice), it holds
+\* exactly the mapping of that prefix, never contradicts the primary, and is identical
+\* once it has the whole log
 ReplicaConverges ==
+    /\ rdup = 0
     /\ ron => (rmap = ReplayMap(SubSeq(log, 1, rlen)) /\ rseq = ReplaySeq(SubSeq(log, 1, rlen)))
     /\ ron => \A n \in NS, k \in Keys : rmap[n][k] # 0 => rmap[n][k] = kmap[n][k]
     /\ (ron /\ rlen = Len(log)) => (rmap = kmap /\ rseq = seq)
+\* the stream is never behind the replica's own log
+StreamAligned == (ron /\ infl = 0) => soff = rlen
 
 Emit == (Gen /\ LastOp = "Final") => PrintT(<<"BEH", ToJson(hist)>>)
 =============================================================================
